@@ -17,6 +17,7 @@ import shutil
 import subprocess
 import sys
 import tempfile
+import threading
 import time
 
 VERIF = os.path.dirname(os.path.dirname(os.path.abspath(__file__)))
@@ -92,14 +93,17 @@ class Ctx:
         self.notes = []
         self.workers = int(os.environ.get("VERIF_WORKERS", "0")) or min(16, os.cpu_count() or 4)
         self._built = {}
+        self._lock = threading.Lock()
 
     # ------------------------------------------------------------------ util
     def log(self, *a):
         print("[%s %6.1fs]" % (self.pid, time.time() - self.t0), *a, flush=True)
 
     def subdir(self, name=None):
-        self._n += 1
-        d = os.path.join(self.scratch, "%s%d" % (name or "d", self._n))
+        with self._lock:
+            self._n += 1
+            n = self._n
+        d = os.path.join(self.scratch, "%s%d" % (name or "d", n))
         os.makedirs(d)
         return d
 
